@@ -26,7 +26,8 @@ It stands for (python/experiment/model/…):
 * acyclicity — `networkx.topological_sort` in `replicate` / `networkx.find_cycle` in
   `ComponentSpecification.checkDataReferences` (trusted) are represented by Kahn's algorithm with fuel.  The graph
   it runs on is the replica-propagation graph of `FlowIR.propagate_replicate`: one producer → consumer edge per
-  declared component reference, whatever the `replicate`/`aggregate` attributes of the two ends are.  It is the
+  declared component reference, whatever the `replicate`/`aggregate` attributes of the two ends are; a reference
+  to a loop placeholder `(stage, name)` gives an edge from the last instance `(stage, "<k>#name")`.  It is the
   loader's only cycle check before the graph is expanded;
 * replication — `FlowIR.propagate_replicate` (`cnt`, `replErrors`: a component takes the `replicate` value of
   its non-aggregating producers, all of which must agree with each other and with its own) and
@@ -150,8 +151,21 @@ def refErrors (d : Doc) (c : Comp) : List Err :=
 /-! ### graph and Kahn's algorithm -/
 
 /-- producer → consumer edges, one per declared reference that is a component identifier -/
-def edges (d : Doc) : List (Id × Id) :=
+def compEdges (d : Doc) : List (Id × Id) :=
   d.comps.flatMap (fun c => (c.refs.filter (fun r => (ids d).contains r)).map (fun r => (r, c.id)))
+
+/-- the component a reference to a loop placeholder stands for in the propagation graph: `propagate_replicate`
+maps the placeholder `(stage, name)` to the LAST component `(stage, "<k>#name")` of the document -/
+def placeholderInst (d : Doc) (r : Id) : Option Id :=
+  ((d.comps.filter (fun c => c.stage == r.1 && afterHash c.name == some r.2)).getLast?).map Comp.id
+
+/-- … and the edge for a declared reference that is not a component identifier but a placeholder -/
+def placeholderEdges (d : Doc) : List (Id × Id) :=
+  d.comps.flatMap (fun c => c.refs.filterMap (fun r =>
+    if (ids d).contains r then none else (placeholderInst d r).map (fun s => (s, c.id))))
+
+/-- the graph the loader's cycle check runs on -/
+def edges (d : Doc) : List (Id × Id) := compEdges d ++ placeholderEdges d
 
 /-- rank of a node in the association list built so far -/
 def rankOf (ranks : List (Id × Nat)) (v : Id) : Option Nat := (ranks.find? (fun p => p.1 == v)).map (·.2)
